@@ -21,3 +21,7 @@ import SpoxModel.Props.C11
 #print axioms C11.none_never_invents
 #print axioms C11.malformed_raises
 #print axioms C11.total_extends_call
+#print axioms C11.attr_classes_covered
+#print axioms C11.dtype_exits_covered
+#print axioms C11.dtype_raises_typeerror
+#print axioms C11.attr_overrides_shape
